@@ -213,7 +213,7 @@ func mkField(key string, v fieldVal) (zapcore.Field, bool) {
 		case 2:
 			return zap.Any(key, caddyhttp.LoggableHTTPHeader{Header: http.Header{"X-Obj": {"objectvalue"}}, ShouldLogCredentials: true}), true
 		case 3:
-			return zap.Any(key, 1.5), true
+			return zap.Any(key, 2.25), true
 		case 4:
 			return zap.Any(key, 1500*time.Millisecond), true
 		case 5:
